@@ -20,6 +20,9 @@ const prop = "C03"
 type shape struct {
 	N, M int
 	Loop bool
+	// CondOut: bit i set = outgoing flow i of the gateway under test carries a
+	// (false) condition expression; a parallel gateway ignores conditions
+	CondOut int
 }
 
 type built struct {
@@ -58,17 +61,22 @@ func build(s shape) *built {
 		}
 	}
 	var after *gen.Node
+	cond := func(f *gen.Flow, i int) {
+		if s.CondOut&(1<<i) != 0 {
+			f.Cond, f.Formal = gen.False(), true
+		}
+	}
 	if s.M == 1 {
 		d := b.Add(gen.KTask)
 		out.Down = append(out.Down, d.ID)
-		b.Connect(j, d)
+		cond(b.Connect(j, d), 0)
 		after = d
 	} else {
 		j2 := b.Add(gen.KPar)
 		for i := 0; i < s.M; i++ {
 			d := b.Add(gen.KTask)
 			out.Down = append(out.Down, d.ID)
-			b.Connect(j, d)
+			cond(b.Connect(j, d), i)
 			b.Connect(d, j2)
 		}
 		after = j2
@@ -197,7 +205,12 @@ func TestC03Table(t *testing.T) {
 					lehmerAll(m, func(dn []int) { downs = append(downs, dn) })
 				}
 				for _, dn := range downs {
-					d := descriptor{Shape: shape{N: n, M: m}, Activations: 1, Schedule: append(append([]int(nil), up...), dn...)}
+					// every second row: some outgoing flows carry a false condition
+					co := 0
+					if total%2 == 1 {
+						co = 1 + total%((1<<m)-1)
+					}
+					d := descriptor{Shape: shape{N: n, M: m, CondOut: co}, Activations: 1, Schedule: append(append([]int(nil), up...), dn...)}
 					out, isNT := run(t, "TestC03Table", d, nil)
 					total++
 					if isNT {
@@ -245,7 +258,7 @@ func TestC03Reentry(t *testing.T) {
 		return
 	}
 	rapid.Check(t, func(rt *rapid.T) {
-		d := descriptor{Shape: shape{N: rapid.IntRange(1, 4).Draw(rt, "N"), M: rapid.IntRange(1, 4).Draw(rt, "M")},
+		d := descriptor{Shape: shape{N: rapid.IntRange(1, 4).Draw(rt, "N"), M: rapid.IntRange(1, 4).Draw(rt, "M"), CondOut: rapid.IntRange(0, 15).Draw(rt, "condOut")},
 			Activations: rapid.IntRange(2, 3).Draw(rt, "activations")}
 		pick := func(n int) int {
 			v := rapid.IntRange(0, n-1).Draw(rt, "pick")
